@@ -334,4 +334,196 @@ Section KWP.
       first [ symmetry; eapply H_ec_inj_point; eassumption
             | symmetry; eapply H_okp_inj_point; first [apply arr32_length | eassumption] ].
   Qed.
+  (* ---------- single altered field (recipient key / EPK / sender key) ---------- *)
+  Lemma wrap_inv cek apu apv tag (sender : option kwks) rcp xc eph nonce w :
+    kw_wrap KwFixed cek apu apv tag sender rcp xc eph nonce = Ok w ->
+    exists z, wrap_z KwFixed sender rcp eph = Ok (z, w_epk w) /\ w_alg w <> AlgOther /\
+              is_pu (w_alg w) = (match sender with None => false | Some _ => true end).
+  Proof.
+    unfold ModelKW.kw_wrap, ModelKW.wrap_kek. intro Hw.
+    destruct (wrap_alg cek sender xc) as [alg|] eqn:Ha; [|discriminate].
+    destruct (wrap_alg_shape _ _ _ _ Ha) as (Hno & Hpu & _).
+    destruct (wrap_z KwFixed sender rcp eph) as [[z epk]| |] eqn:Hz; try discriminate.
+    destruct (wrap_raw alg _ cek nonce) as [enc| |]; try discriminate.
+    injection Hw as <-. simpl. exists z. auto.
+  Qed.
+
+  Lemma kw_other_recipient_l cek apu apv tag (sender : option kwks) rk xc eph nonce w rks' rk' m :
+    kw_valid rk -> length nonce = 24%nat ->
+    kw_wrap KwFixed cek apu apv tag sender (pub_of rk) xc eph nonce = Ok w ->
+    kprimary KwFixed rks' = Some rk' -> k_typ rk' = k_typ rk -> k_crv rk' = k_crv rk ->
+    kw_unwrap KwFixed w tag (sender_pub KwFixed sender) rks' = Ok m -> k_priv rk' = k_priv rk.
+  Proof.
+    intros Hv Hn Hw Hk Ht Hc Hu. destruct (wrap_inv _ _ _ _ _ _ _ _ _ _ Hw) as (z & Hz & Hno & Hpu).
+    assert (Hu' : kw_unwrap KwFixed {| w_alg := w_alg w; w_enc := w_enc w; w_epk := w_epk w; w_apu := w_apu w; w_apv := w_apv w |}
+                    tag (sender_pub KwFixed sender) rks' = Ok m) by (destruct w; exact Hu).
+    destruct (kw_context_l _ _ _ _ _ _ _ _ _ _ _ _ _ _ _ _ _ _ Hn Hw eq_refl Hu') as (_ & _ & _ & _ & _ & rk2 & z2 & Hk2 & Hz2 & Hw2).
+    rewrite Hk in Hk2. injection Hk2 as <-. rewrite Hz in Hw2. injection Hw2 as <-.
+    pose proof (z_roundtrip sender rk eph z (w_epk w) (w_alg w) Hv Hno Hpu Hz) as Hr.
+    exact (unwrap_z_recipient_inj _ _ _ _ _ _ Ht Hc Hr Hz2).
+  Qed.
+
+  Lemma kw_other_epk_l cek apu apv tag (sender : option kwks) rk xc eph nonce w rks epk' m :
+    kw_valid rk -> length nonce = 24%nat ->
+    kw_wrap KwFixed cek apu apv tag sender (pub_of rk) xc eph nonce = Ok w ->
+    kprimary KwFixed rks = Some rk -> p_typ epk' = p_typ (w_epk w) ->
+    kw_unwrap KwFixed {| w_alg := w_alg w; w_enc := w_enc w; w_epk := epk'; w_apu := w_apu w; w_apv := w_apv w |}
+              tag (sender_pub KwFixed sender) rks = Ok m ->
+    same_point (w_epk w) epk'.
+  Proof.
+    intros Hv Hn Hw Hk Ht Hu. destruct (wrap_inv _ _ _ _ _ _ _ _ _ _ Hw) as (z & Hz & Hno & Hpu).
+    destruct (kw_context_l _ _ _ _ _ _ _ _ _ _ _ _ _ _ _ _ _ _ Hn Hw eq_refl Hu) as (_ & _ & _ & _ & _ & rk2 & z2 & Hk2 & Hz2 & Hw2).
+    rewrite Hk in Hk2. injection Hk2 as <-. rewrite Hz in Hw2. injection Hw2 as <-.
+    pose proof (z_roundtrip sender rk eph z (w_epk w) (w_alg w) Hv Hno Hpu Hz) as Hr.
+    exact (unwrap_z_epk_inj _ _ _ _ _ _ Ht Hr Hz2).
+  Qed.
+
+  Lemma kw_other_sender_l cek apu apv tag (sks : kwks) sk rk xc eph nonce w rks sp' m :
+    kw_valid rk -> length nonce = 24%nat ->
+    kw_wrap KwFixed cek apu apv tag (Some sks) (pub_of rk) xc eph nonce = Ok w ->
+    kprimary KwFixed rks = Some rk -> kprimary KwFixed sks = Some sk -> p_typ sp' = p_typ (pub_of sk) ->
+    kw_unwrap KwFixed w tag (Some sp') rks = Ok m ->
+    match p_typ (w_epk w) with
+    | TEC => pt_of (pub_of sk) = pt_of sp'
+    | _ => unorm (arr32 (p_x (pub_of sk))) = unorm (arr32 (p_x sp'))
+    end.
+  Proof.
+    intros Hv Hn Hw Hk Hs Ht Hu. destruct (wrap_inv _ _ _ _ _ _ _ _ _ _ Hw) as (z & Hz & Hno & Hpu).
+    assert (Hu' : kw_unwrap KwFixed {| w_alg := w_alg w; w_enc := w_enc w; w_epk := w_epk w; w_apu := w_apu w; w_apv := w_apv w |}
+                    tag (Some sp') rks = Ok m) by (destruct w; exact Hu).
+    destruct (kw_context_l _ _ _ _ _ _ _ _ _ _ _ _ _ _ _ _ _ _ Hn Hw eq_refl Hu') as (_ & _ & _ & _ & _ & rk2 & z2 & Hk2 & Hz2 & Hw2).
+    rewrite Hk in Hk2. injection Hk2 as <-. rewrite Hz in Hw2. injection Hw2 as <-.
+    pose proof (z_roundtrip (Some sks) rk eph z (w_epk w) (w_alg w) Hv Hno Hpu Hz) as Hr.
+    simpl ModelKW.sender_pub in Hr. rewrite Hs in Hr. simpl option_map in Hr.
+    exact (unwrap_z_sender_inj _ _ _ _ _ _ Hpu Ht Hr Hz2).
+  Qed.
 End KWP.
+
+(* ---------- the ideal-primitive hypotheses, named (they appear in every key-wrap theorem of PropsKW.v) ---------- *)
+(* correctness: generated points are on their curve, Diffie-Hellman commutes, X25519 keys have 32 bytes, AES-KW and
+   XC20P invert, AES-KW output is a non-empty multiple of 8 bytes for such input *)
+Definition kw_correct_hyps (ec_pub : crv -> N -> N * N) (on_curve : crv -> N * N -> bool) (dh_ec : crv -> N -> N * N -> bytes)
+  (okp_pub : N -> bytes) (dh_okp : N -> bytes -> bytes)
+  (kw : bytes -> bytes -> bytes) (kw_un : bytes -> bytes -> option bytes)
+  (xc_seal : bytes -> bytes -> bytes -> bytes) (xc_open : bytes -> bytes -> bytes -> option bytes) : Prop :=
+  (forall c a, nist c = true -> on_curve c (ec_pub c a) = true) /\
+  (forall c a b, dh_ec c a (ec_pub c b) = dh_ec c b (ec_pub c a)) /\
+  (forall a, length (okp_pub a) = 32%nat) /\
+  (forall a b, dh_okp a (okp_pub b) = dh_okp b (okp_pub a)) /\
+  (forall k m, kw_un k (kw k m) = Some m) /\
+  (forall k m, (length m mod 8 = 0)%nat -> (length (kw k m) mod 8 = 0)%nat /\ length (kw k m) <> 0%nat) /\
+  (forall k n m, xc_open k n (xc_seal k n m) = Some m).
+(* binding: the KDF is collision free on (alg, Z, apu, apv, tag); only produced wraps unwrap; a wrap binds key and cek *)
+Definition kw_binding_hyps (kdf : N -> bytes -> bytes -> bytes -> option bytes -> nat -> bytes)
+  (kw : bytes -> bytes -> bytes) (kw_un : bytes -> bytes -> option bytes)
+  (xc_seal : bytes -> bytes -> bytes -> bytes) (xc_open : bytes -> bytes -> bytes -> option bytes) : Prop :=
+  (forall a z u v t s a' z' u' v' t' s',
+     kdf a z u v t s = kdf a' z' u' v' t' s' -> a = a' /\ z = z' /\ u = u' /\ v = v' /\ t = t') /\
+  (forall k c m, kw_un k c = Some m -> c = kw k m) /\
+  (forall k m k' m', kw k m = kw k' m' -> k = k' /\ m = m') /\
+  (forall k n c m, xc_open k n c = Some m -> c = xc_seal k n m) /\
+  (forall k n m k' m', xc_seal k n m = xc_seal k' n m' -> k = k' /\ m = m').
+(* Diffie-Hellman in a prime-order group: scalar multiplication is injective in the point and in the scalar; two
+   concatenated shared secrets of one curve split uniquely (they have the curve's fixed length) *)
+Definition kw_dh_hyps (on_curve : crv -> N * N -> bool) (dh_ec : crv -> N -> N * N -> bytes) (dh_okp : N -> bytes -> bytes) : Prop :=
+  (forall c a p p', on_curve c p = true -> on_curve c p' = true -> dh_ec c a p = dh_ec c a p' -> p = p') /\
+  (forall c a a' p, on_curve c p = true -> dh_ec c a p = dh_ec c a' p -> a = a') /\
+  (forall c a p b q a' p' b' q', dh_ec c a p ++ dh_ec c b q = dh_ec c a' p' ++ dh_ec c b' q' ->
+     dh_ec c a p = dh_ec c a' p' /\ dh_ec c b q = dh_ec c b' q') /\
+  (forall a u u', length u = 32%nat -> length u' = 32%nat -> dh_okp a u = dh_okp a u' -> unorm u = unorm u') /\
+  (forall a a' u, dh_okp a u = dh_okp a' u -> a = a') /\
+  (forall a p b q a' p' b' q', dh_okp a p ++ dh_okp b q = dh_okp a' p' ++ dh_okp b' q' ->
+     dh_okp a p = dh_okp a' p' /\ dh_okp b q = dh_okp b' q').
+
+(* ---------- the lemmas with the hypotheses bundled (statements of PropsKW.v) ---------- *)
+Lemma kw_roundtrip_b :
+  forall ec_pub on_curve dh_ec okp_pub dh_okp kdf kw kw_un xc_seal xc_open b64,
+  kw_correct_hyps ec_pub on_curve dh_ec okp_pub dh_okp kw kw_un xc_seal xc_open ->
+  forall cek apu apv tag (sender : option kwks) (rks : kwks) rk xc eph nonce w,
+  kprimary KwFixed rks = Some rk -> kw_valid rk -> length nonce = 24%nat ->
+  kw_wrap ec_pub on_curve dh_ec okp_pub dh_okp kdf kw xc_seal b64 KwFixed cek apu apv tag sender
+          (pub_of ec_pub okp_pub rk) xc eph nonce = Ok w ->
+  kw_unwrap on_curve dh_ec dh_okp kdf kw_un xc_open KwFixed w tag (sender_pub ec_pub okp_pub KwFixed sender) rks = Ok cek.
+Proof.
+  intros ec_pub on_curve dh_ec okp_pub dh_okp kdf kw kw_un xc_seal xc_open b64.
+  unfold kw_correct_hyps, kw_binding_hyps, kw_dh_hyps. intros.
+  repeat match goal with H : _ /\ _ |- _ => destruct H end.
+  eapply (kw_roundtrip_l ec_pub on_curve dh_ec okp_pub dh_okp kdf kw kw_un xc_seal xc_open b64); try eassumption.
+Qed.
+
+Lemma kw_genuine_accepted_only_in_context_partial_b :
+  forall ec_pub on_curve dh_ec okp_pub dh_okp kdf kw kw_un xc_seal xc_open b64,
+  kw_correct_hyps ec_pub on_curve dh_ec okp_pub dh_okp kw kw_un xc_seal xc_open ->
+  kw_binding_hyps kdf kw kw_un xc_seal xc_open ->
+  forall cek apu apv tag (sender : option kwks) rcp xc eph nonce w alg' epk' apu' apv' tag' (sender' : option pubkey) (rks' : kwks) m,
+  length nonce = 24%nat ->
+  kw_wrap ec_pub on_curve dh_ec okp_pub dh_okp kdf kw xc_seal b64 KwFixed cek apu apv tag sender rcp xc eph nonce = Ok w ->
+  is_xc alg' = is_xc (w_alg w) ->
+  kw_unwrap on_curve dh_ec dh_okp kdf kw_un xc_open KwFixed
+            {| w_alg := alg'; w_enc := w_enc w; w_epk := epk'; w_apu := apu'; w_apv := apv' |} tag' sender' rks' = Ok m ->
+  m = cek /\ alg' = w_alg w /\ apu' = w_apu w /\ apv' = w_apv w /\ (is_pu alg' = true -> tag' = tag) /\
+  exists rk' z, kprimary KwFixed rks' = Some rk' /\ unwrap_z on_curve dh_ec dh_okp KwFixed alg' epk' sender' rk' = Ok z /\
+                wrap_z ec_pub on_curve dh_ec okp_pub dh_okp KwFixed sender rcp eph = Ok (z, w_epk w).
+Proof.
+  intros ec_pub on_curve dh_ec okp_pub dh_okp kdf kw kw_un xc_seal xc_open b64.
+  unfold kw_correct_hyps, kw_binding_hyps, kw_dh_hyps. intros.
+  repeat match goal with H : _ /\ _ |- _ => destruct H end.
+  eapply (kw_context_l ec_pub on_curve dh_ec okp_pub dh_okp kdf kw kw_un xc_seal xc_open b64); try eassumption.
+Qed.
+
+Lemma kw_other_recipient_key_rejected_b :
+  forall ec_pub on_curve dh_ec okp_pub dh_okp kdf kw kw_un xc_seal xc_open b64,
+  kw_correct_hyps ec_pub on_curve dh_ec okp_pub dh_okp kw kw_un xc_seal xc_open ->
+  kw_binding_hyps kdf kw kw_un xc_seal xc_open -> kw_dh_hyps on_curve dh_ec dh_okp ->
+  forall cek apu apv tag (sender : option kwks) rk xc eph nonce w rks' rk' m,
+  kw_valid rk -> length nonce = 24%nat ->
+  kw_wrap ec_pub on_curve dh_ec okp_pub dh_okp kdf kw xc_seal b64 KwFixed cek apu apv tag sender (pub_of ec_pub okp_pub rk) xc eph nonce = Ok w ->
+  kprimary KwFixed rks' = Some rk' -> k_typ rk' = k_typ rk -> k_crv rk' = k_crv rk ->
+  kw_unwrap on_curve dh_ec dh_okp kdf kw_un xc_open KwFixed w tag (sender_pub ec_pub okp_pub KwFixed sender) rks' = Ok m ->
+  k_priv rk' = k_priv rk.
+Proof.
+  intros ec_pub on_curve dh_ec okp_pub dh_okp kdf kw kw_un xc_seal xc_open b64.
+  unfold kw_correct_hyps, kw_binding_hyps, kw_dh_hyps. intros.
+  repeat match goal with H : _ /\ _ |- _ => destruct H end.
+  eapply (kw_other_recipient_l ec_pub on_curve dh_ec okp_pub dh_okp kdf kw kw_un xc_seal xc_open b64); try eassumption.
+Qed.
+
+Lemma kw_other_epk_rejected_partial_b :
+  forall ec_pub on_curve dh_ec okp_pub dh_okp kdf kw kw_un xc_seal xc_open b64,
+  kw_correct_hyps ec_pub on_curve dh_ec okp_pub dh_okp kw kw_un xc_seal xc_open ->
+  kw_binding_hyps kdf kw kw_un xc_seal xc_open -> kw_dh_hyps on_curve dh_ec dh_okp ->
+  forall cek apu apv tag (sender : option kwks) rk xc eph nonce w rks epk' m,
+  kw_valid rk -> length nonce = 24%nat ->
+  kw_wrap ec_pub on_curve dh_ec okp_pub dh_okp kdf kw xc_seal b64 KwFixed cek apu apv tag sender (pub_of ec_pub okp_pub rk) xc eph nonce = Ok w ->
+  kprimary KwFixed rks = Some rk -> p_typ epk' = p_typ (w_epk w) ->
+  kw_unwrap on_curve dh_ec dh_okp kdf kw_un xc_open KwFixed
+            {| w_alg := w_alg w; w_enc := w_enc w; w_epk := epk'; w_apu := w_apu w; w_apv := w_apv w |}
+            tag (sender_pub ec_pub okp_pub KwFixed sender) rks = Ok m ->
+  same_point (w_epk w) epk'.
+Proof.
+  intros ec_pub on_curve dh_ec okp_pub dh_okp kdf kw kw_un xc_seal xc_open b64.
+  unfold kw_correct_hyps, kw_binding_hyps, kw_dh_hyps. intros.
+  repeat match goal with H : _ /\ _ |- _ => destruct H end.
+  eapply (kw_other_epk_l ec_pub on_curve dh_ec okp_pub dh_okp kdf kw kw_un xc_seal xc_open b64); try eassumption.
+Qed.
+
+Lemma kw_other_sender_rejected_b :
+  forall ec_pub on_curve dh_ec okp_pub dh_okp kdf kw kw_un xc_seal xc_open b64,
+  kw_correct_hyps ec_pub on_curve dh_ec okp_pub dh_okp kw kw_un xc_seal xc_open ->
+  kw_binding_hyps kdf kw kw_un xc_seal xc_open -> kw_dh_hyps on_curve dh_ec dh_okp ->
+  forall cek apu apv tag (sks : kwks) sk rk xc eph nonce w rks sp' m,
+  kw_valid rk -> length nonce = 24%nat ->
+  kw_wrap ec_pub on_curve dh_ec okp_pub dh_okp kdf kw xc_seal b64 KwFixed cek apu apv tag (Some sks) (pub_of ec_pub okp_pub rk) xc eph nonce = Ok w ->
+  kprimary KwFixed rks = Some rk -> kprimary KwFixed sks = Some sk -> p_typ sp' = p_typ (pub_of ec_pub okp_pub sk) ->
+  kw_unwrap on_curve dh_ec dh_okp kdf kw_un xc_open KwFixed w tag (Some sp') rks = Ok m ->
+  match p_typ (w_epk w) with
+  | TEC => pt_of (pub_of ec_pub okp_pub sk) = pt_of sp'
+  | _ => unorm (arr32 (p_x (pub_of ec_pub okp_pub sk))) = unorm (arr32 (p_x sp'))
+  end.
+Proof.
+  intros ec_pub on_curve dh_ec okp_pub dh_okp kdf kw kw_un xc_seal xc_open b64.
+  unfold kw_correct_hyps, kw_binding_hyps, kw_dh_hyps. intros.
+  repeat match goal with H : _ /\ _ |- _ => destruct H end.
+  eapply (kw_other_sender_l ec_pub on_curve dh_ec okp_pub dh_okp kdf kw kw_un xc_seal xc_open b64); try eassumption.
+Qed.
+
